@@ -108,6 +108,10 @@ func httpParseResponseLine(line []byte) (resp httpResponseLine, err error) {
 		return resp, ErrMalformedResponse
 	}
 
+	// status-code = 3DIGIT (RFC 7230, section 3.1.2).
+	if len(status) != 3 {
+		return resp, ErrMalformedResponse
+	}
 	var convErr error
 	resp.status, convErr = asciiToInt(status)
 	if convErr != nil {
